@@ -96,6 +96,8 @@ func ruleNoTxUnderUpdate(c *report.Ctx, floorClosures int) {
 func runC01(c *report.Ctx) {
 	p := c.P
 	ruleNoTxUnderUpdate(c, 8)
+	ruleReorgReachesNewTip(c)
+	ruleEveryRelevantOutputCredited(c)
 
 	// ---- must-pass ---------------------------------------------------------
 	c.Rule("must-pass", "every success exit of a ledger step passes the call that makes the step durable/complete", 5)
